@@ -64,6 +64,7 @@ def run(res, tier, seed, widen=1):
             res.tie_break(case, str(ex), "the model decodes the genuine primer with its own decoder", "no_escape")
             continue
         res.evaluations += 1
+        lib.heartbeat(case)
         signal.alarm(2)
         t0 = time.perf_counter()
         try:
@@ -92,6 +93,7 @@ def run(res, tier, seed, widen=1):
     texts = [p for p in payloads if p and all(c < 128 for c in p)][: (300 if tier == "quick" else 5000)]
     for t, a in zip(texts, lib.drive([f"p1.parse {lib.hexs(t)}" for t in texts])):
         res.evaluations += 1
+        lib.heartbeat({"op": "p1.block", "hex": t.hex()})
         signal.alarm(2)
         try:
             isets, _ = C11.impl_parse(t)
@@ -143,6 +145,7 @@ def _messages(res, rng, tier, widen, payloads):
             continue
         res.evaluations += 1
         case = {"op": "automsg", "prev": prev, "kind": kind, "hex": b.hex()}
+        lib.heartbeat(case)
         signal.alarm(2)
         try:
             r = ad.decode_message(msg)
@@ -176,6 +179,7 @@ def replay(payload, res):
     logging.disable(logging.CRITICAL)
     signal.signal(signal.SIGALRM, _alarm)
     ok = True
+    t0 = time.perf_counter()
     try:
         signal.alarm(5)
         if c["op"] == "automsg":
@@ -197,5 +201,9 @@ def replay(payload, res):
         ok = False
     finally:
         signal.alarm(0)
+    dt = time.perf_counter() - t0
+    if dt > 2.0:
+        print(f"took {dt:.1f} s (> 2 s for one message)")
+        ok = False
     print("REPLAY", "passes" if ok else "fails")
     return 0 if ok else 1
